@@ -1,7 +1,7 @@
 """Subject parts (C10): sequential definition SubjectSeq.tla enumerated by TLC and replayed; linearizability of concurrent histories (SubjectLin.tla)."""
 import parts_pipeline as pp
 
-CLASS_PROPS = {'deliveries': ['C10'], 'getters': ['C10'], 'hang': ['C10', 'C07'], 'panic': ['C10', 'C07'], 'ctx-nil': ['C09']}
+CLASS_PROPS = {'deliveries': ['C10'], 'getters': ['C10', 'C03'], 'hang': ['C10', 'C07'], 'panic': ['C10', 'C07'], 'ctx-nil': ['C09']}
 
 
 def cfg(name, **kw):
